@@ -42,6 +42,10 @@ struct World {
     cur: Vec<usize>,
     updates: usize,
     trace: Vec<String>,
+    /// probe every address outside the table instead of one drawn at random (directed histories)
+    probe_all: bool,
+    /// the last operation was acknowledged and changed the table
+    last_op_changed: bool,
 }
 
 fn pool(rng: &mut Rng) -> (Vec<Reg>, Vec<bool>) {
@@ -76,6 +80,9 @@ fn pool(rng: &mut Rng) -> (Vec<Reg>, Vec<bool>) {
     bad.push(true);
     v.push(Reg::new(0x10_3000, PAGE, 0x7f00_0000_3000, 0));
     bad.push(false);
+    // 11: another guest range mapped at the user address of slot 0 (aliases in frontend address space)
+    v.push(Reg::new(0x50_0000, 2 * PAGE, 0x7f00_0000_0000, 0));
+    bad.push(false);
     (v, bad)
 }
 
@@ -90,7 +97,7 @@ impl World {
             return None;
         }
         let (pool, bad_fd) = pool(rng);
-        Some(World { s, fe: Some(fe), pool, bad_fd, cur: Vec::new(), updates: 0, trace: Vec::new() })
+        Some(World { s, fe: Some(fe), pool, bad_fd, cur: Vec::new(), updates: 0, trace: Vec::new(), probe_all: false, last_op_changed: false })
     }
 
     fn info(&self, i: usize) -> VhostUserMemoryRegionInfo {
@@ -111,6 +118,7 @@ impl World {
             }
         };
         let ok = r.is_ok();
+        self.last_op_changed = ok;
         self.trace.push(format!("{op:?}->{}", if ok { "ok" } else { "rejected" }));
         if ok {
             match op {
@@ -148,6 +156,14 @@ impl World {
         if got != want {
             return Some(("C13:region-set".into(), jo! {"backend_regions" => format!("{got:x?}"), "reference_regions" => format!("{want:x?}")}));
         }
+        // the notification itself must already show the new table (a backend looks at its memory
+        // when it is told about the change, and is not told again)
+        if let Some(mut at) = self.s.be.st.lock().unwrap().regions_at_last_update.clone() {
+            at.sort();
+            if at != want && self.last_op_changed {
+                return Some(("C13:notified-before-table-installed".into(), jo! {"regions_seen_inside_update_memory" => format!("{at:x?}"), "reference_regions" => format!("{want:x?}")}));
+            }
+        }
         // bytes through both views at the edges of every region
         for i in self.cur.clone() {
             let (gpa, size) = (self.pool[i].gpa, self.pool[i].size);
@@ -181,19 +197,32 @@ impl World {
         if self.cur.is_empty() {
             return None;
         }
+        // (an address inside the user range of two current regions has no unique translation: skipped)
         let pick = |w: &World, rng: &mut Rng, align: u64| -> (u64, u64) {
-            let i = w.cur[rng.below(w.cur.len() as u64) as usize];
-            let r = &w.pool[i];
-            let off = match rng.below(3) {
-                0 => 0,
-                1 => (r.size - 64) & !(align - 1),
-                _ => rng.below(r.size - 64) & !(align - 1),
-            };
-            (r.uaddr + off, r.gpa + off)
+            let mut last = (0, 0);
+            for _ in 0..16 {
+                let i = w.cur[rng.below(w.cur.len() as u64) as usize];
+                let r = &w.pool[i];
+                let off = match rng.below(3) {
+                    0 => 0,
+                    1 => (r.size - 64) & !(align - 1),
+                    _ => rng.below(r.size - 64) & !(align - 1),
+                };
+                last = (r.uaddr + off, r.gpa + off);
+                let va = last.0;
+                let owners = w.cur.iter().filter(|j| va >= w.pool[**j].uaddr && va - w.pool[**j].uaddr < w.pool[**j].size).count();
+                if owners == 1 {
+                    return last;
+                }
+            }
+            (0, 0)
         };
         let (dva, dgpa) = pick(self, rng, 16);
         let (ava, agpa) = pick(self, rng, 2);
         let (uva, ugpa) = pick(self, rng, 4);
+        if dva == 0 || ava == 0 || uva == 0 {
+            return None; // every current region is aliased by another one
+        }
         let cfgd = VringConfigData { queue_max_size: 256, queue_size: 256, flags: 0, desc_table_addr: dva, used_ring_addr: uva, avail_ring_addr: ava, log_addr: None };
         let fe = self.fe.as_mut()?;
         let r = fe.set_vring_addr(0, &cfgd);
@@ -228,7 +257,14 @@ impl World {
             }
             v
         };
-        if let Some(bad) = outside.get(rng.below(outside.len().max(1) as u64) as usize).copied() {
+        let mut probes: Vec<u64> = Vec::new();
+        if self.probe_all {
+            probes = outside.clone();
+            probes.dedup();
+        } else if let Some(bad) = outside.get(rng.below(outside.len().max(1) as u64) as usize).copied() {
+            probes.push(bad);
+        }
+        for bad in probes {
             let which = rng.below(3);
             let mut c2 = cfgd;
             match which {
@@ -311,6 +347,52 @@ fn history(cfg: &Cfg, rng: &mut Rng, case: &str) {
     let _ = w.bad_fd.len();
 }
 
+/// Fixed histories around the operations whose effect depends on *which* field identifies a region:
+/// aliases in frontend address space, adjacent regions, removal and re-adding, replacement by a table.
+fn directed(cfg: &Cfg, rng: &mut Rng) {
+    let hists: Vec<Vec<MOp>> = vec![
+        vec![MOp::Set(vec![0, 2]), MOp::Add(11), MOp::Rem(11)],
+        vec![MOp::Set(vec![2, 11]), MOp::Add(0), MOp::Rem(0)],
+        vec![MOp::Set(vec![0, 1, 2]), MOp::Rem(1), MOp::Rem(0)],
+        vec![MOp::Set(vec![0]), MOp::Add(1), MOp::Add(10), MOp::Rem(1)],
+        vec![MOp::Set(vec![0, 1, 10, 2]), MOp::Set(vec![2]), MOp::Add(0)],
+        vec![MOp::Set(vec![4, 5]), MOp::RemWrongSize(4), MOp::Rem(5), MOp::Add(3)],
+        vec![MOp::Add(2), MOp::Add(0), MOp::Rem(2), MOp::Add(2), MOp::Set(vec![0])],
+    ];
+    for (hi, h) in hists.iter().enumerate() {
+        if !cfg.mine(hi as u64) {
+            continue;
+        }
+        let Some(mut w) = World::new(rng) else { return };
+        w.probe_all = true;
+        for op in h {
+            let ok = match w.apply(op) {
+                Ok(ok) => ok,
+                Err(e) => {
+                    report::inconclusive(&format!("directed history {hi}: {e}"));
+                    break;
+                }
+            };
+            report::count(if ok { "ops.accepted" } else { "ops.rejected" }, 1);
+            let mut v = w.check(rng);
+            if v.is_none() {
+                v = w.check_translation(rng);
+            }
+            if let Some((sig, detail)) = v {
+                report::violation(&sig, jo! {"history" => w.trace.clone(), "after_op" => format!("{op:?}"), "op_acknowledged_ok" => ok, "detail" => detail, "directed" => hi}, cfg.replay(&format!("directed:{hi}")));
+                break;
+            }
+        }
+        report::eval(1);
+        report::count("histories.directed", 1);
+        report::distinct_str(&format!("directed:{hi}:{}", w.trace.join(",")));
+        if let Some(fe) = w.fe.take() {
+            drop(fe);
+        }
+        let _ = w.s.daemon.wait();
+    }
+}
+
 pub fn run(cfg: &Cfg) {
     report::assume("the reference follows the acknowledged outcome of every operation (whether an unordered / overlapping table is accepted is left open; a rejected one must leave the previous table intact); behaviour when the backend's own update_memory callback fails is not judged");
     if let Some(o) = &cfg.only {
@@ -318,9 +400,13 @@ pub fn run(cfg: &Cfg) {
             let mut r = common::Rng(st);
             history(cfg, &mut r, o);
         }
+        if let Some(i) = o.strip_prefix("directed:").and_then(|s| s.parse::<u64>().ok()) {
+            directed(&cfg.single(i), &mut Rng::new(0xd13));
+        }
         return;
     }
     let mut rng = Rng::new(cfg.seed.wrapping_mul(0xc13).wrapping_add(cfg.shard.wrapping_mul(7907)));
+    directed(cfg, &mut Rng::new(0xd13));
     for _ in 0..cfg.pick(60, 1200) {
         let case = format!("rng:{}", rng.0);
         history(cfg, &mut rng, &case);
